@@ -532,6 +532,16 @@ pub fn load_program_from_bytes(bytes: &[u8]) -> MResult<ParsedProgram> {
   load_program_from_reader(&mut cur, total_len)
 }
 
+// Verification seam (off unless built with `--cfg mech_verif`): the loader as
+// `load_program_from_file` runs it, over a caller-supplied reader instead of a
+// `File`, so that a fault-injecting reader can stand behind the real parser.
+#[cfg(mech_verif)]
+pub fn verif_load_program_from_reader<R: Read + Seek>(r: &mut R, total_len: u64) -> MResult<ParsedProgram> {
+  verify_crc_trailer_seek(r, total_len)?;
+  r.seek(SeekFrom::Start(0))?;
+  load_program_from_reader(r, total_len)
+}
+
 // A section that a header declares must lie inside the file. Checked before
 // any buffer is sized from a declared length, so that a damaged or hostile
 // header cannot make the loader allocate more than the file could hold.
